@@ -2,7 +2,8 @@
 # tools/seed_tests.sh <PID> : for i in 1 2, apply /tmp/seed-<PID>/change<i>.diff in that worktree, run the whole
 # pinned suite there, compare the passed set with BASELINE.json, revert; result in /verif/seeded/<PID>-<i>/tests.txt
 pid="$1"
-if [ "${ROUND:-1}" = "2" ]; then wt="/tmp/seed2-$pid"; off=2; else wt="/tmp/seed-$pid"; off=0; fi
+r="${ROUND:-1}"
+if [ "$r" = "1" ]; then wt="/tmp/seed-$pid"; off=0; else wt="/tmp/seed$r-$pid"; off=$((2*(r-1))); fi
 for i in 1 2; do
   [ -f "$wt/change$i.diff" ] || continue
   dst="/verif/seeded/$pid-$((i+off))"; mkdir -p "$dst"
